@@ -7,9 +7,9 @@ use serde_json::json;
 
 pub fn cfg(ctx: &Ctx) -> FamCfg {
     if ctx.quick() {
-        FamCfg { n: 3, ring_k: 4, ls_k: 3, mpt_m: 2, mls: 3, mpg: true, pgh: true, gc: true, stride: 1, mls_stride: 23, mpg_stride: 7 }
+        FamCfg { n: 3, ring_k: 4, ls_k: 3, mpt_m: 2, mls: 3, mpg: true, pgh: true, gc: true, stride: 1, mls_stride: 23, mpg_stride: 14, mls3_stride: 3 }
     } else {
-        FamCfg { n: 3, ring_k: 8, ls_k: 4, mpt_m: 3, mls: 3, mpg: true, pgh: true, gc: true, stride: 1, mls_stride: 1, mpg_stride: 1 }
+        FamCfg { n: 3, ring_k: 8, ls_k: 4, mpt_m: 3, mls: 3, mpg: true, pgh: true, gc: true, stride: 1, mls_stride: 1, mpg_stride: 1, mls3_stride: 1 }
     }
 }
 
@@ -28,6 +28,16 @@ pub fn run(mut run: Run) -> i32 {
         "coordinates restricted to the integer lattice alphabet stated in coverage.families".into(),
         "oracle: exact rational arrangement (harness/src/exact.rs), cross-checked against JTS expected matrices in C01 stage oracle-selfcheck".into(),
     ];
+    // conformance of the reference model: it must reproduce JTS's expected matrices
+    let (checked, total, bad) = crate::jts::selfcheck();
+    run.extra.insert("oracle_cases_crosschecked".into(), json!(checked));
+    run.extra.insert("oracle_jts_relate_cases_seen".into(), json!(total));
+    if !bad.is_empty() {
+        for b in bad.iter().take(10) {
+            eprintln!("oracle disagrees with JTS expectation: {}", b);
+        }
+        panic!("reference kernel disagrees with {} JTS relate cases", bad.len());
+    }
     run.stage("pairs", n * n, |idx, acc| {
         let (a, b) = (&shapes[idx / n], &shapes[idx % n]);
         let truth = mstr(&de9im(&a.ag, &b.ag));
@@ -43,6 +53,34 @@ pub fn run(mut run: Run) -> i32 {
                 acc.viol(format!("relate[{}] {}x{} true={} got={}", how, a.ty(), b.ty(), truth, got), idx, || {
                     json!({"a": a.wkt(), "b": b.wkt(), "true": truth, "got": got})
                 });
+            }
+        }
+    });
+    // variant pass: the same point sets written differently
+    let vstride = run.ctx.pick(9, 2);
+    let base: Vec<&Shape> = shapes
+        .iter()
+        .filter(|s| !matches!(s.fam, "RC" | "TR" | "GCpt" | "GCln" | "GCpg" | "LSc"))
+        .step_by(vstride)
+        .collect();
+    let full = !run.ctx.quick();
+    let vars: Vec<Vec<(String, geo::Geometry<f64>)>> = base.iter().map(|s| variants(&s.ag, full)).collect();
+    let nb = base.len();
+    run.extra.insert("variant_base_shapes".into(), json!(nb));
+    run.stage("variants", nb * nb, |idx, acc| {
+        let (i, j) = (idx / nb, idx % nb);
+        let truth = mstr(&de9im(&base[i].ag, &base[j].ag));
+        acc.sample(idx, || json!({"a_variants": vars[i].iter().map(|v| v.0.clone()).collect::<Vec<_>>(), "b": base[j].wkt(), "true_matrix": truth}));
+        for (ta, ga) in &vars[i] {
+            for (tb, gb) in &vars[j] {
+                acc.evals += 1;
+                let got = guard(|| relate_concrete(ga, gb)).unwrap_or_else(|e| format!("panic:{}", e));
+                acc.class(format!("var {}x{}:{}", ta, tb, truth));
+                if got != truth {
+                    acc.viol(format!("relate[variant] {}x{} true={} got={}", ta, tb, truth, got), idx, || {
+                        json!({"a": format!("{:?}", ga), "b": format!("{:?}", gb), "true": truth, "got": got})
+                    });
+                }
             }
         }
     });
